@@ -117,7 +117,9 @@ impl FeatureState for CombinedFeatureState {
     }
 
     fn accept_route_state(&self, route_ctx: &mut RouteContext) {
-        accept_route_state_with_states(&self.states, route_ctx)
+        // NOTE: route state is reset by the goal which owns all feature states: a reset here would wipe
+        // the state which other features have just calculated for the same route
+        self.states.iter().for_each(|state| state.accept_route_state(route_ctx));
     }
 
     fn accept_solution_state(&self, ctx: &mut SolutionContext) {
